@@ -225,3 +225,6 @@ func vSettle() {}
 
 // vNative reports whether the harness runs natively (replay / self-check) rather than under the engine.
 func vNative() bool { return true }
+
+// vStep marks the boundary of an atomic step of a stub (a scheduling point that counts against the preemption bound).
+func vStep() {}
